@@ -77,9 +77,9 @@ Definition bystanders_keep_values_weakly (t t' : matrix) : Prop :=
 (* explicit attributes of the source object are all there (the copy may carry more: explicit values added for defaults that differ) *)
 Definition attrs_carried (src_attrs tgt_attrs : list (Z * Z)) : Prop :=
   forall a v, lookup a src_attrs = Some v -> lookup a tgt_attrs = Some v.
+(* name, layout/type/scaling, receivers, value table (attribute values are the subject of values_from below) *)
 Definition signal_carried (s s' : signal) : Prop :=
-  s_name s' = s_name s /\ s_payload s' = s_payload s /\ s_receivers s' = s_receivers s /\ s_values s' = s_values s /\
-  attrs_carried (s_attrs s) (s_attrs s').
+  s_name s' = s_name s /\ s_payload s' = s_payload s /\ s_receivers s' = s_receivers s /\ s_values s' = s_values s.
 Definition frame_carried (f f' : frame) : Prop :=
   f_id f' = f_id f /\ f_ext f' = f_ext f /\ f_name f' = f_name f /\ f_size f' = f_size f /\ f_tx f' = f_tx f /\
   f_comment f' = f_comment f /\ f_rest f' = f_rest f /\ attrs_carried (f_attrs f) (f_attrs f') /\
